@@ -7,7 +7,7 @@ extra columns with names shared between siblings/cousins, mapper-level
 polymorphic_load), 0-12 rows distributed over the classes and inserted with raw
 Core INSERTs, and a list of query variants.  Every class is queried with the
 default ``select(Q)`` and the drawn variants (with_polymorphic '*' / subset,
-flat / aliased, selectin_polymorphic, Session.get, legacy Query,
+flat / aliased, aliased(Q), selectin_polymorphic, Session.get, legacy Query,
 join(...of_type(Q)), relationship lazy / selectinload / joinedload with
 of_type(with_polymorphic), filters on a base column, ORDER BY pk LIMIT/OFFSET),
 each in a fresh Session.
@@ -48,11 +48,12 @@ ASSUMPTIONS = [
     "known finding excluded by construction: CASE-expression polymorphic_on + query at a non-root class mapped to a JOIN (joined/mixed) loads sub-subclass rows as the queried class",
 ]
 
-TOP_VARIANTS = ["wp", "wp", "wp", "selectin", "selectin", "get", "legacy", "plain"]
+TOP_VARIANTS = ["wp", "wp", "wp", "selectin", "selectin", "get", "legacy", "plain", "aliased"]
 REF_VARIANTS = ["join_of_type", "join_of_type", "rel_lazy", "rel_selectin_of_type", "rel_joined_of_type", "rel_selectin_sip"]
 
 SIG_EXPR = "C42/polymorphic_on-expression/joined-subclass-query-not-polymorphic"
 SIG_LATE = "C42/declarative/late-single-sibling-column-mapped-below-joined-subclass"
+SIG_DOC = "C42/docs/abstract-concrete-semi-classical-example-raises"
 
 
 # ----------------------------------------------------------------- oracle helpers
@@ -220,10 +221,10 @@ def _resolve(cfg, sh, q, v):
     name = v["v"]
     if name in REF_VARIANTS and not cfg["ref"]:
         name = "plain"
-    if concrete and name == "selectin":
+    if concrete and name in ("selectin", "aliased"):
         name = "plain"
     if concrete and name == "wp" and not cl[q]["poly"]:
-        name = "plain"
+        name = "wp_explicit" if len(sh["desc"][q]) > 1 else "plain"
     if name == "selectin" and len(sh["desc"][q]) == 1:
         name = "plain"
     return name
@@ -231,7 +232,7 @@ def _resolve(cfg, sh, q, v):
 
 def _run_variant(b, eng, rows, nrefs, q, v):
     from sqlalchemy import select
-    from sqlalchemy.orm import Session, joinedload, selectin_polymorphic, selectinload, with_polymorphic
+    from sqlalchemy.orm import Session, aliased, joinedload, polymorphic_union, selectin_polymorphic, selectinload, with_polymorphic
 
     cfg, sh = b.cfg, b.shape
     concrete = cfg["kind"] == "concrete"
@@ -241,14 +242,26 @@ def _run_variant(b, eng, rows, nrefs, q, v):
     limit = v.get("limit")
     offset = v.get("offset") or 0
     exp = _filt(_expected_rows(cfg, sh, rows, q), f)
+    if name == "wp_explicit":
+        exp = _filt([r for r in rows if r["cls"] in sh["desc"][q]], f)
     where = f"[{cfg['kind']} on={cfg['on']}] {name} at C{q}"
     eager = {"mapper": True, "tag": name}
 
     with Session(eng) as s:
-        if name in ("plain", "wp", "selectin", "legacy", "join_of_type"):
+        if name in ("plain", "aliased", "wp", "wp_explicit", "selectin", "legacy", "join_of_type"):
             ent = Q
             opts = []
-            if name == "wp":
+            if name == "aliased":
+                ent = aliased(Q, flat=bool(v.get("flat")))
+                where += f" aliased(C{q}, flat={bool(v.get('flat'))})"
+            if name == "wp_explicit":
+                # with_polymorphic() docstring: selectable= is required for concrete classes, polymorphic_on= for
+                # mappings without default polymorphic loading
+                pj = polymorphic_union({P.ident(cfg, k): b.tables[k] for k in sh["desc"][q]}, "type", "pjx")
+                ent = with_polymorphic(Q, "*", selectable=pj, polymorphic_on=pj.c.type)
+                eager["incl"] = set(sh["desc"][q])
+                where += " with_polymorphic('*', selectable=polymorphic_union(subtree), polymorphic_on=<its type column>)"
+            if name == "wp" or (name == "join_of_type" and v.get("wpj")):
                 if concrete:
                     ent = with_polymorphic(Q, "*", aliased=bool(v.get("aliased")))
                     eager["incl"] = set(sh["desc"][q])
@@ -260,7 +273,7 @@ def _run_variant(b, eng, rows, nrefs, q, v):
                     ent = with_polymorphic(Q, spec, flat=bool(v.get("flat")), aliased=bool(v.get("aliased")))
                     eager["incl"] = set(sh["desc"][q]) if star else _upclosure(sh, q, sub)
                     eager["explicit_wp"] = True
-                    eager["tag"] = "wp-star" if star else "wp-subset"
+                    eager["tag"] = ("wp-star" if star else "wp-subset") if name == "wp" else "join_of_type-wp"
                     where += f" with_polymorphic({'*' if star else ['C%d' % d for d in sub]}, flat={bool(v.get('flat'))}, aliased={bool(v.get('aliased'))})"
             elif name == "selectin":
                 sub = _subset(sh, q, v.get("mask", 0)) or [sh["desc"][q][1]]
@@ -363,7 +376,7 @@ def _materialize_rows(cfg, sh, raw_rows):
                 elif P.col_is_str(n):
                     vals[n] = f"{n}{x}_{r['id']}"
                 else:
-                    vals[n] = x * 100 + r["id"]
+                    vals[n] = (P.COL_POOL.index(n) + 1) * 1000 + x * 100 + r["id"]
         rows.append({"cls": c, "id": r["id"], "b0": r["b0"], "ref": r.get("ref"), "vals": vals})
     return rows
 
@@ -416,14 +429,14 @@ def check_hier(case, ctx):
     queries = [{"q": q, "v": "plain"} for q in range(sh["n"])]
     for v in case["queries"]:
         v = dict(v)
-        v["q"] = v["at"] % sh["n"]
+        v["q"] = 0 if (v["v"] in REF_VARIANTS[2:] and cfg["ref"]) else v["at"] % sh["n"]
         queries.append(v)
 
     excluded = 0
     runnable = []
     for v in queries:
         q = v["q"]
-        if _expr_excluded(cfg, sh, q) and v["v"] not in REF_VARIANTS[2:] and not pinned:
+        if _expr_excluded(cfg, sh, q) and not pinned:
             # would hit the known finding whenever a sub-subclass row exists: keep such queries out
             excluded += 1
             continue
@@ -432,6 +445,8 @@ def check_hier(case, ctx):
         classes.add(f"at:{pos}")
         rn = _resolve(cfg, sh, q, v)
         classes.add(f"v:{rn}")
+        if rn == "join_of_type" and v.get("wpj"):
+            classes.add("v:join_of_type-wp")
         if rn == "wp":
             classes.add("v:wp-star" if (v.get("star") or cfg["kind"] == "concrete") else "v:wp-subset")
             if v.get("flat") and cfg["kind"] != "concrete":
@@ -453,6 +468,18 @@ def check_hier(case, ctx):
         b.metadata.create_all(eng)
         with eng.begin() as conn:
             P.insert_rows(conn, b, rows, nrefs)
+        if cfg["croot"] == "abstract_doc":
+            # pinned only: the literal "semi-classical abstract" example of inheritance.rst (base mapped to the
+            # polymorphic_union with with_polymorphic="*")
+            from sqlalchemy import exc as sa_exc
+            from sqlalchemy import select
+
+            try:
+                select(b.classes[0])
+            except sa_exc.InvalidRequestError as e:
+                if "requires 'selectable' argument when concrete-inheriting mappers are used" in str(e):
+                    raise Violation(SIG_DOC, f"select() against the documented abstract concrete base raises: {e}", observed=str(e), expected="polymorphic SELECT from the pjoin")
+                raise
         for v in runnable:
             _run_variant(b, eng, rows, nrefs, v["q"], v)
     finally:
@@ -489,7 +516,7 @@ def _cases(draw):
         "disc": draw(st.sampled_from(["str", "int"])),
         "on": draw(st.sampled_from(["col", "col", "name", "expr"])),
         "croot": draw(st.sampled_from(["table", "table", "abstract", "abstract", "plain"])),
-        "ref": draw(st.integers(0, 2)) == 0,
+        "ref": draw(st.booleans()),
         "classes": classes,
     }
     size = draw(st.sampled_from([0, 1, 3, 5, 6, 8, 8, 10, 10, 12, 12, 12]))
@@ -508,9 +535,11 @@ def _cases(draw):
         )
     queries = []
     for _ in range(draw(st.integers(0, 10))):
-        name = draw(st.sampled_from(TOP_VARIANTS + (REF_VARIANTS if h["ref"] else [])))
+        name = draw(st.sampled_from(REF_VARIANTS if h["ref"] and kind != "concrete" and draw(st.booleans()) else TOP_VARIANTS))
         v = {"at": draw(st.integers(0, 7)), "v": name}
-        if name in ("wp", "selectin", "rel_selectin_of_type", "rel_joined_of_type", "rel_selectin_sip"):
+        if name == "join_of_type":
+            v["wpj"] = draw(st.booleans())
+        if name in ("wp", "aliased", "selectin", "join_of_type", "rel_selectin_of_type", "rel_joined_of_type", "rel_selectin_sip"):
             v["mask"] = draw(st.integers(0, 255))
             v["star"] = draw(st.booleans())
             v["flat"] = draw(st.booleans())
@@ -530,4 +559,4 @@ def _cases(draw):
 
 
 def subs(tier):
-    return [Generated("hier", check_hier, strategy=_cases(), quick=1600, thorough=60000)]
+    return [Generated("hier", check_hier, strategy=_cases(), quick=2400, thorough=60000)]
